@@ -16,9 +16,9 @@ def proof_part(ctx, props_file, proof_files, cov):
     cov["trusted_base"] = TRUSTED + ["axioms reported by Print Assumptions: " + ("none" if not a["axioms"] else " | ".join(a["axioms"]))]
     return broken
 
-def cache_seq_part(ctx, pid, cov, n_cases, broken_proofs, extra_concrete=None):
+def cache_seq_part(ctx, pid, cov, n_cases, broken_proofs, dense=False):
     """common tail of the checks tied by CORR-cache-seq"""
-    res = corr_cache.run(ctx, n_cases)
+    res = corr_cache.run(ctx, n_cases, dense=dense)
     cov["correspondence"] = "CORR-cache-seq"
     cov["traces_validated_against_impl"] = res["n"]
     cov["input_distribution"] = res["stats"]
@@ -90,7 +90,115 @@ def check_C12():
     cov["rule"] = "same generated histories on both twins, outputs compared line by line (visit order of exhaustive traversals compared as sets); plus each model against its own Go file"
     return ctx.finish(cov, ["map-level twins (Map vs MapOf) are covered by C11's refinement of both to SpecMap"])
 
-CHECKS = {"C01": check_C01, "C12": check_C12}
+def law_part(ctx, pid, cov, res):
+    """C06 / C08 stated directly on what the implementation printed (dense cases)"""
+    if not res.get("ok_build") or not res.get("impl_out"):
+        return
+    c06, c08 = corr_cache.law_check(res["cases"], res["impl_out"])
+    mine = c06 if pid == "C06" else c08
+    cov["direct_law_checks_failed"] = len(mine)
+    for b in mine[:3]:
+        small = corr_cache.shrink_law(res, b["case"], pid)
+        ctx.violation("law-%d" % b["case"],
+                      dict(check="the property's own statement evaluated on the implementation's output (physical snapshot before the call vs callbacks / Count)",
+                           failing_op=b["op"], observed=b["impl"], why=b["why"], case=corr_cache.case_text(small),
+                           how_to_replay="bin/check %s --replay <this file>" % pid),
+                      failing_input=True, what=b["why"])
+
+def check_C09():
+    ctx = Ctx("C09"); cov = {}
+    broken = proof_part(ctx, "props/C09.v", ["proofs/C09_exp.v", "proofs/C01_sim.v", "proofs/C01_ops.v", "proofs/C01_hist.v"], cov)
+    res = cache_seq_part(ctx, "C09", cov, N(ctx, 1500, 30000), broken)
+    # the overflow branch, explicitly (finding F6): durations so large that now+d leaves int64
+    if res.get("ok_build"):
+        import random
+        from . import gen_cache
+        r = random.Random(ctx.seed)
+        n_over = 0
+        for j in range(N(ctx, 20, 200)):
+            d = gen_cache.TTL_OVERFLOW(r)
+            case = (["CASE o%d cache -1 %d" % (j, gen_cache.NOW0), "NEWDEFAULT -2000000000 0 "],
+                    ["OP set 1 7 %d" % d, "OP getexp 1", "OP getttl 1"])
+            rc, io, err = cacheseq.run_impl(res["exe_impl"], [case])
+            want = gen_cache.NOW0 + d
+            got = io[0][1][2] if io and len(io[0][1]) > 2 else "(none)"
+            if ("valexp 7 %d 1" % want) not in got:
+                n_over += 1
+                ctx.violation("overflow-%d" % j,
+                              dict(check="d > 0 must expire at call time + d", failing_op="OP set 1 7 %d" % d, observed=got,
+                                   expected="valexp 7 %d 1" % want, case=corr_cache.case_text(case),
+                                   **{"class": "now+d>=2^63"}),
+                              failing_input=True, what="now + d overflows int64: the entry never expires")
+        cov["overflow_inputs_tried"] = N(ctx, 20, 200)
+        cov["overflow_inputs_deviating"] = n_over
+    cov["rule"] = ("CORR-cache-seq cases (TTL classes incl. both sentinels +-1ns, 0, +-1, large; defaults changed mid-life; every constructor path) with reported instants/TTLs compared exactly; "
+                   "constants regenerated from source into Params.v; a separate stream of overflowing durations (known finding F6)")
+    return ctx.finish(cov, ["guard of the theorems: now + d stays within int64 (beyond it: C09_overflow_refuted, known finding)"])
+
+def check_C06():
+    ctx = Ctx("C06"); cov = {}
+    broken = proof_part(ctx, "props/C06.v", ["proofs/C06_seq.v", "proofs/C06_hist.v", "proofs/C12_twins.v", "proofs/C01_ops.v"], cov)
+    res = cache_seq_part(ctx, "C06", cov, N(ctx, 1200, 20000), broken, dense=True)
+    law_part(ctx, "C06", cov, res)
+    cov["rule"] = "dense CORR-cache-seq cases (physical snapshot before every removing call); callbacks compared with the model's events and with the entries the snapshot says were removed; callbacks swapped / nil mid-life"
+    return ctx.finish(cov, ["sequential histories here; interleavings: see the concurrent part when registered"])
+
+def check_C07():
+    ctx = Ctx("C07"); cov = {}
+    broken = proof_part(ctx, "props/C07.v", ["proofs/C07_range.v", "proofs/C01_ops.v", "proofs/SpecExec_sound.v"], cov)
+    cache_seq_part(ctx, "C07", cov, N(ctx, 1200, 20000), broken)
+    cov["rule"] = "every Range/Items answer of the implementation is tested by range_okb (no duplicate, only live current pairs, stops exactly when told, otherwise complete) and compared with the model visiting in the same order"
+    return ctx.finish(cov, ["cache level, sequential, non-mutating visitors from the named family"])
+
+def check_C08():
+    ctx = Ctx("C08"); cov = {}
+    broken = proof_part(ctx, "props/C08.v", ["proofs/C08_cache.v", "proofs/C06_hist.v", "proofs/C06_seq.v"], cov)
+    res = cache_seq_part(ctx, "C08", cov, N(ctx, 1200, 20000), broken, dense=True)
+    law_part(ctx, "C08", cov, res)
+    cov["rule"] = "dense cases: Count compared with the physical snapshot taken just before it, with the live entries right after DeleteExpired, with 0 right after Clear, and with the model"
+    return ctx.finish(cov, ["cache level, sequential"])
+
+def check_C15():
+    ctx = Ctx("C15"); cov = {}
+    broken = proof_part(ctx, "props/C15.v", ["proofs/C15_life.v", "proofs/C09_exp.v", "proofs/C08_cache.v", "proofs/C06_hist.v"], cov)
+    res = cache_seq_part(ctx, "C15", cov, N(ctx, 400, 4000), broken)
+    native = run_native(ctx, "janitor")
+    cov["native_janitor"] = native.get("summary")
+    for prob in native.get("problems", [])[:3]:
+        ctx.violation("janitor-%d" % prob["n"], dict(check="native/janitor (real time, real GC)", observed=prob["detail"]),
+                      failing_input=True, what=prob["what"])
+    cov["rule"] = "constructor variants x intervals {<0, 0, >0}: janitor started iff the model says so (goroutine inspection), real-time run of native/janitor (cleanup without user call, nothing removed otherwise, goroutines and contents released after GC), source facts of the goroutine closure and finalizer"
+    return ctx.finish(cov, ["runtime behaviour the model cannot exhibit (ticker fires, GC runs the finalizer, select takes a ready case) is observed, not proved"])
+
+def run_native(ctx, name):
+    """run one of the native harnesses against a scratch copy of /repo's working tree"""
+    import shutil, tempfile
+    d = C.scratch_dir("verif-native-")
+    repo_copy = os.path.join(d, "repo")
+    shutil.copytree(C.REPO, repo_copy, ignore=shutil.ignore_patterns(".git"))
+    out = os.path.join(d, "out.json")
+    rc, o, e = C.sh([os.path.join(C.VERIF, "native", name, "run.sh"), repo_copy, str(ctx.seed), ctx.tier, out],
+                    env=C.GOENV, timeout=1500)
+    res = dict(problems=[], summary=None)
+    if rc != 0 or not os.path.exists(out):
+        res["problems"].append(dict(n=0, what="native/%s did not run" % name, detail=(o + e)[-1500:]))
+        return res
+    j = json.load(open(out))
+    if name == "janitor":
+        n = 0
+        for c in j.get("cases", []):
+            ok = c.get("count_series_ok") and c.get("ledger_ok") and c.get("janitor_started") == c.get("expected_started")
+            if not ok:
+                n += 1
+                res["problems"].append(dict(n=n, what="janitor case deviates", detail=c))
+        if not j.get("leak", {}).get("ok", False):
+            res["problems"].append(dict(n=n + 1, what="janitor goroutines or contents not released after GC", detail=j.get("leak")))
+        res["summary"] = dict(cases=len(j.get("cases", [])), leak=j.get("leak"))
+    res["raw"] = j
+    return res
+
+CHECKS = {"C01": check_C01, "C12": check_C12, "C09": check_C09, "C06": check_C06, "C07": check_C07,
+          "C08": check_C08, "C15": check_C15}
 
 def replay(pid, path):
     """re-run the case of a replay file against the current working tree"""
